@@ -36,6 +36,8 @@ type Val struct {
 	// Lit / LitEnv: a function literal and the environment it closes over (conflicts := func(key string) bool {..})
 	Lit    *ast.FuncLit
 	LitEnv *Env
+	// Fn: a declared function used as a value (conv := asIs; parse := strconv.Atoi)
+	Fn *types.Func
 	// Elems: a slice or array built from a composite literal (a table of options)
 	Elems   []*Val
 	IsSlice bool
@@ -79,6 +81,8 @@ type Env struct {
 	// RangeOnce: a range statement is evaluated for one representative element (its variables stay unbound): for
 	// search loops whose body does not depend on the element under the rule's hooks - "some element satisfies P"
 	RangeOnce bool
+	// ExtCall answers a call, through a function value, of a function outside the module (nil, false = unsupported)
+	ExtCall func(env *Env, c *ast.CallExpr, fn *types.Func) ([]*Val, bool)
 	// AssertOK: "v, ok := x.(T)" succeeds with the value of x (for values the rule builds with the asserted type)
 	AssertOK bool
 	depth    int
@@ -87,7 +91,7 @@ type Env struct {
 }
 
 func (env *Env) child(pkg *packages.Package) *Env {
-	return &Env{P: env.P, Pkg: pkg, Vars: map[types.Object]*Val{}, Hook: env.Hook, Multi: env.Multi, MapOk: env.MapOk, MapStore: env.MapStore, RangeOnce: env.RangeOnce, AssertOK: env.AssertOK, depth: env.depth + 1}
+	return &Env{P: env.P, Pkg: pkg, Vars: map[types.Object]*Val{}, Hook: env.Hook, Multi: env.Multi, MapOk: env.MapOk, MapStore: env.MapStore, RangeOnce: env.RangeOnce, AssertOK: env.AssertOK, ExtCall: env.ExtCall, depth: env.depth + 1}
 }
 
 type evalErr struct{ msg string }
@@ -138,6 +142,9 @@ func (env *Env) eval(e ast.Expr) *Val {
 				return env.eval(rhs)
 			}
 		}
+		if fn, ok := o.(*types.Func); ok {
+			return &Val{Fn: fn}
+		}
 		// a package-level variable of the module with an initialiser that is never reassigned (a lookup table)
 		if v, ok := o.(*types.Var); ok && v.Pkg() != nil && v.Parent() == v.Pkg().Scope() {
 			if init, ipkg := env.P.pkgVarInit(v); init != nil {
@@ -147,6 +154,14 @@ func (env *Env) eval(e ast.Expr) *Val {
 		}
 		env.fail(e, "identifier "+x.Name)
 	case *ast.SelectorExpr:
+		// pkg.Func used as a value
+		if fn, ok := info.Uses[x.Sel].(*types.Func); ok {
+			if id, isId := ast.Unparen(x.X).(*ast.Ident); isId {
+				if _, isPkg := info.Uses[id].(*types.PkgName); isPkg {
+					return &Val{Fn: fn}
+				}
+			}
+		}
 		base := env.eval(x.X)
 		for base != nil && base.Ptr != nil {
 			base = base.Ptr
@@ -560,6 +575,18 @@ func (env *Env) evalCallN(c *ast.CallExpr) []*Val {
 				}
 			}
 		}
+		if cv != nil && cv.Fn != nil && env.depth <= 6 {
+			// a declared function held in a variable or a parameter
+			if env.P.Funcs[fkey(cv.Fn.Origin())] != nil {
+				return env.evalDeclCallN(c, cv.Fn.Origin())
+			}
+			if env.ExtCall != nil {
+				if vals, ok := env.ExtCall(env, c, cv.Fn); ok {
+					return vals
+				}
+			}
+			env.fail(c, "call of "+cv.Fn.FullName()+" through a value")
+		}
 		if cv == nil || cv.Lit == nil || env.depth > 6 {
 			env.fail(c, "dynamic call")
 		}
@@ -581,7 +608,7 @@ func (env *Env) evalCallN(c *ast.CallExpr) []*Val {
 func (env *Env) callClosure(c *ast.CallExpr, cv *Val, argv []*Val) []*Val {
 	{
 		le := cv.LitEnv
-		ce := &Env{P: le.P, Pkg: le.Pkg, Vars: le.Vars, Hook: le.Hook, Body: le.Body, Multi: le.Multi, MapOk: le.MapOk, MapStore: le.MapStore, RangeOnce: le.RangeOnce, AssertOK: le.AssertOK, depth: env.depth + 1}
+		ce := &Env{P: le.P, Pkg: le.Pkg, Vars: le.Vars, Hook: le.Hook, Body: le.Body, Multi: le.Multi, MapOk: le.MapOk, MapStore: le.MapStore, RangeOnce: le.RangeOnce, AssertOK: le.AssertOK, ExtCall: le.ExtCall, depth: env.depth + 1}
 		i := 0
 		for _, fld := range cv.Lit.Type.Params.List {
 			for _, nm := range fld.Names {
@@ -738,6 +765,19 @@ func (env *Env) execBlock(list []ast.Stmt) ([]*Val, bool) {
 		switch x := s.(type) {
 		case *ast.ReturnStmt:
 			var r []*Val
+			if len(x.Results) == 1 {
+				// return f(x) with f returning several values
+				if c, ok := ast.Unparen(x.Results[0]).(*ast.CallExpr); ok {
+					if tup, isTup := info.Types[c].Type.(*types.Tuple); isTup && tup.Len() > 1 {
+						if env.Multi != nil {
+							if vals, ok := env.Multi(env, c); ok && len(vals) == tup.Len() {
+								return vals, true
+							}
+						}
+						return env.evalCallN(c), true
+					}
+				}
+			}
 			for _, e := range x.Results {
 				r = append(r, env.eval(e))
 			}
